@@ -141,7 +141,7 @@ func hRyw(dir string) {
 				cmd = &regattapb.Command{Type: regattapb.Command_DELETE, Kv: &regattapb.KeyValue{Key: c.Kv.Key}, PrevKvs: c.PrevKvs, RangeEnd: re, Count: c.Count}
 			case regattapb.Command_TXN:
 				rq := &regattapb.TxnRequest{Table: tname, Compare: c.Txn.Compare, Success: c.Txn.Success, Failure: c.Txn.Failure}
-				if rq.IsReadonly() {
+				if txnIsReadonly(rq) {
 					cancel()
 					continue
 				}
